@@ -200,10 +200,12 @@ Proof.
   apply firstn_zlen.
 Qed.
 
-Lemma remove_tag_enc s l n : wf_tags l -> t_bytes s = enc l -> t_len s = zlen (enc l) ->
+(* removal on an encoding; the result is the reference one whenever the iterator sees every element, and
+   also whenever it gets as far as an element with that number (elements after it may then be empty) *)
+Lemma remove_tag_enc_found s l n : wf_tags l -> t_bytes s = enc l -> t_len s = zlen (enc l) ->
   exists s' l', remove_tag s n = Done (s', match l with [] => - EINVAL | _ => 0 end) /\
     wf_tags l' /\ t_bytes s' = enc l' /\ t_len s' = zlen (enc l') /\
-    (nonleading_nonemptyb l = true -> l' = remove_first n l).
+    (nonleading_nonemptyb l = true \/ find_num n (reported (enc l)) <> None -> l' = remove_first n l).
 Proof.
   intros Hwf Hb Hl. unfold remove_tag. rewrite (iter_of_enc s l Hwf Hb Hl).
   destruct l as [|t0 r0] eqn:EL.
@@ -221,7 +223,18 @@ Proof.
         inversion Wb; subst. apply Forall_app. split; assumption.
       * intros _. rewrite <- Hlab. symmetry. exact Hr.
     + exists s, l. repeat split; auto.
-      intros Hn. rewrite (reported_enc_full l Hn) in F. symmetry. eapply find_none; eauto.
+      intros [Hn|Hn]; [|exfalso; apply Hn; reflexivity].
+      rewrite (reported_enc_full l Hn) in F. symmetry. eapply find_none; eauto.
+Qed.
+
+Lemma remove_tag_enc s l n : wf_tags l -> t_bytes s = enc l -> t_len s = zlen (enc l) ->
+  exists s' l', remove_tag s n = Done (s', match l with [] => - EINVAL | _ => 0 end) /\
+    wf_tags l' /\ t_bytes s' = enc l' /\ t_len s' = zlen (enc l') /\
+    (nonleading_nonemptyb l = true -> l' = remove_first n l).
+Proof.
+  intros Hwf Hb Hl.
+  destruct (remove_tag_enc_found s l n Hwf Hb Hl) as (s' & l' & R & W & B & L & N).
+  exists s', l'. repeat split; auto.
 Qed.
 
 Lemma zlen_enc_0 l : zlen (enc l) = 0 -> l = [].
@@ -233,30 +246,6 @@ Qed.
 Lemma wf_tags_snoc l t : wf_tags l -> wf_tag t -> wf_tags (l ++ [t]).
 Proof. intros H1 H2. apply Forall_app. split; [exact H1 | constructor; [exact H2 | constructor]]. Qed.
 
-Lemma set_tag_enc s l num data : wf_tags l -> t_bytes s = enc l -> t_len s = zlen (enc l) ->
-  wf_tag (num, data) ->
-  exists s' r l', set_tag s num data = Done (s', r) /\
-    wf_tags l' /\ t_bytes s' = enc l' /\ t_len s' = zlen (enc l') /\
-    (nonleading_nonemptyb l = true -> l' = spec_set l num data /\ r = 0).
-Proof.
-  intros Hwf Hb Hl Ht. unfold set_tag, spec_set.
-  destruct (t_len s =? 0) eqn:C.
-  - apply Z.eqb_eq in C. rewrite Hl in C. apply zlen_enc_0 in C. subst l.
-    cbn [bind]. change (0 =? 0) with true. cbv iota.
-    destruct (quick_add_enc s [] num data Ht Hb Hl) as (s' & Q & Qb & Ql).
-    rewrite Q. exists s', 0, ([] ++ [(num, data)]). repeat split; auto.
-    apply wf_tags_snoc; assumption.
-  - apply Z.eqb_neq in C.
-    destruct (remove_tag_enc s l num Hwf Hb Hl) as (s1 & l1 & R & W1 & B1 & L1 & N1).
-    rewrite R. cbn [bind].
-    destruct l as [|t0 r0] eqn:EL; [exfalso; apply C; rewrite Hl; reflexivity|].
-    rewrite <- EL in *. change (0 =? 0) with true. cbv iota.
-    destruct (quick_add_enc s1 l1 num data Ht B1 L1) as (s' & Q & Qb & Ql).
-    rewrite Q. exists s', 0, (l1 ++ [(num, data)]). repeat split; auto.
-    + apply wf_tags_snoc; assumption.
-    + rewrite N1 by assumption. reflexivity.
-Qed.
-
 Lemma check_tag_enc s l n : wf_tags l -> t_bytes s = enc l -> t_len s = zlen (enc l) ->
   exists c, check_tag s n = Done c /\
     (nonleading_nonemptyb l = true -> c = match l with [] => - EINVAL | _ => count_num n l end).
@@ -266,6 +255,117 @@ Proof.
   - cbn [bind]. eexists. split; [reflexivity|]. auto.
   - rewrite <- EL in *. cbn [bind]. eexists. split; [reflexivity|].
     intros Hn. rewrite (reported_enc_full l Hn). apply count_elems_of.
+Qed.
+
+(* on a non-empty list the count is a count *)
+Lemma check_tag_nonneg s l n c : wf_tags l -> t_bytes s = enc l -> t_len s = zlen (enc l) ->
+  l <> [] -> check_tag s n = Done c -> 0 <= c.
+Proof.
+  intros Hwf Hb Hl Hne. unfold check_tag. rewrite (iter_of_enc s l Hwf Hb Hl).
+  destruct l as [|t0 r0]; [contradiction|]. cbn [bind]. intros H. inversion H. apply zlen_nonneg.
+Qed.
+
+(* ---------- the list extended by one element (what the setters iterate over after the add) ---------- *)
+Lemma cut_empty_elems_of_app : forall r q off,
+  forallb (fun t : tag => negb (zlen (snd t) =? 0)) r = true ->
+  exists tl, cut_empty (elems_of (r ++ q) off) = elems_of r off ++ tl.
+Proof.
+  induction r as [|t r IH]; intros q off H.
+  - eexists. reflexivity.
+  - cbn [forallb] in H. apply andb_true_iff in H. destruct H as [H1 H2].
+    cbn [app elems_of cut_empty e_len].
+    destruct (zlen (snd t) =? 0); [discriminate|].
+    destruct (IH q (off + 2 + zlen (snd t)) H2) as (tl & E). rewrite E. exists tl. reflexivity.
+Qed.
+
+(* every element of l is still reported after one more element, of any length, has been appended *)
+Lemma reported_snoc l x : l <> [] -> nonleading_nonemptyb l = true ->
+  exists tl, reported (enc (l ++ [x])) = elems_of l 0 ++ tl.
+Proof.
+  intros Hne Hn. unfold reported. rewrite elements_enc.
+  destruct l as [|t r]; [contradiction|]. cbn [nonleading_nonemptyb] in Hn.
+  cbn [app elems_of].
+  destruct (cut_empty_elems_of_app r [x] (0 + 2 + zlen (snd t)) Hn) as (tl & E).
+  rewrite E. exists tl. reflexivity.
+Qed.
+
+Lemma find_app_some : forall a b n, find_num n a <> None -> find_num n (a ++ b) <> None.
+Proof.
+  induction a as [|e a IH]; intros b n H; [exfalso; apply H; reflexivity|].
+  cbn [app find_num] in *. destruct (e_num e =? n); [discriminate|]. apply IH. exact H.
+Qed.
+
+Lemma count_num_cons t r n :
+  count_num n (t :: r) = (if fst t =? n then 1 else 0) + count_num n r.
+Proof.
+  unfold count_num. cbn [filter]. destruct (fst t =? n); [rewrite zlen_cons|]; reflexivity.
+Qed.
+Lemma count_num_nonneg n l : 0 <= count_num n l.
+Proof. apply zlen_nonneg. Qed.
+
+Lemma count_pos_find : forall l off n, 0 < count_num n l -> find_num n (elems_of l off) <> None.
+Proof.
+  induction l as [|t r IH]; intros off n H.
+  - change (count_num n []) with 0 in H. lia.
+  - rewrite count_num_cons in H. cbn [elems_of find_num e_num].
+    destruct (fst t =? n); [discriminate|]. apply IH. lia.
+Qed.
+
+Lemma count_zero_remove : forall l n, count_num n l = 0 -> remove_first n l = l.
+Proof.
+  induction l as [|t r IH]; intros n H; [reflexivity|].
+  rewrite count_num_cons in H. pose proof (count_num_nonneg n r). cbn [remove_first].
+  destruct (fst t =? n); [lia|]. f_equal. apply IH. lia.
+Qed.
+
+Lemma remove_first_snoc : forall l n x, 0 < count_num n l ->
+  remove_first n (l ++ [x]) = remove_first n l ++ [x].
+Proof.
+  induction l as [|t r IH]; intros n x H.
+  - change (count_num n []) with 0 in H. lia.
+  - rewrite count_num_cons in H. cbn [app remove_first].
+    destruct (fst t =? n); [reflexivity|]. cbn [app]. f_equal. apply IH. lia.
+Qed.
+
+(* the setters: count, add, then remove the first (= old) element when there was one *)
+Lemma set_tag_enc s l num data : wf_tags l -> t_bytes s = enc l -> t_len s = zlen (enc l) ->
+  wf_tag (num, data) ->
+  exists s' r l', set_tag s num data = Done (s', r) /\
+    wf_tags l' /\ t_bytes s' = enc l' /\ t_len s' = zlen (enc l') /\
+    (nonleading_nonemptyb l = true -> l' = spec_set l num data /\ r = 0).
+Proof.
+  intros Hwf Hb Hl Ht. unfold set_tag, spec_set.
+  destruct (quick_add_enc s l num data Ht Hb Hl) as (s1 & Q & Qb & Ql).
+  assert (W1 : wf_tags (l ++ [(num, data)])) by (apply wf_tags_snoc; assumption).
+  destruct (t_len s =? 0) eqn:C.
+  - apply Z.eqb_eq in C. rewrite Hl in C. apply zlen_enc_0 in C. subst l.
+    cbn [bind]. change (0 <? 0) with false. cbv iota. rewrite Q.
+    change (negb (0 =? 0)) with false. cbv iota.
+    exists s1, 0, ([] ++ [(num, data)]). repeat split; auto.
+  - apply Z.eqb_neq in C.
+    assert (Hne : l <> []) by (intros E; apply C; rewrite Hl, E; reflexivity).
+    destruct (check_tag_enc s l num Hwf Hb Hl) as (c & Cc & CN).
+    pose proof (check_tag_nonneg s l num c Hwf Hb Hl Hne Cc) as C0.
+    rewrite Cc. cbn [bind].
+    replace (c <? 0) with false by lia. rewrite Q.
+    change (negb (0 =? 0)) with false. cbv iota.
+    destruct (0 <? c) eqn:Cp.
+    + apply Z.ltb_lt in Cp.
+      destruct (remove_tag_enc_found s1 (l ++ [(num, data)]) num W1 Qb Ql)
+        as (s' & l' & R & W' & B' & L' & N').
+      assert (E0 : match l ++ [(num, data)] with [] => - EINVAL | _ :: _ => 0 end = 0)
+        by (destruct l; reflexivity).
+      rewrite E0 in R. rewrite R. exists s', 0, l'. repeat split; auto.
+      pose proof (CN H) as Ec. destruct l as [|t0 r0] eqn:EL; [contradiction|]. rewrite <- EL in *.
+      subst c. rewrite N'; [apply remove_first_snoc; exact Cp|].
+      right. destruct (reported_snoc l (num, data) Hne H) as (tl & E).
+      assert (Hc : find_num num (elems_of l 0 ++ tl) <> None)
+        by (apply find_app_some, count_pos_find; exact Cp).
+      rewrite <- E in Hc. exact Hc.
+    + apply Z.ltb_ge in Cp.
+      exists s1, 0, (l ++ [(num, data)]). repeat split; auto.
+      pose proof (CN H) as Ec. destruct l as [|t0 r0] eqn:EL; [contradiction|]. rewrite <- EL in *.
+      rewrite count_zero_remove; [reflexivity | lia].
 Qed.
 
 Lemma wf_channel c : 0 <= c < 256 -> wf_tag (c_TAG_DS_PARAMETER, [c]).
